@@ -191,6 +191,7 @@ class Program:
         self.field_aliases = {}     # (root class, owner.part) -> the field of the owner that holds the very same object
         self.nonnull = {}           # (root class, field) -> the attribute is never None once the object is constructed
         self.back_refs = {}         # (root class, owner.part) -> ("outer", prefix) when the part always denotes the owner
+        self.descriptors = {}       # (class, attribute) -> property object built by a factory call in the class body
         self.stream_steps = {}      # id(generator definition) -> one-element function of an endless stream, or None
         self.next_of = {}           # iter(S) term -> element, while a loop walks S through an iterator object
         self.funcrefs = {}          # key -> (class, definition, decorator level): what a decorator receives
@@ -1734,6 +1735,12 @@ class Summariser:
             self.fields[attr] = val
             events.append(Store(attr, val, st.lineno, aug))
         elif isinstance(target, ast.Attribute) and self.is_self(target.value) and self.cls is not None and \
+                not self.field_prefix and self.descriptor(target.attr) is not None:
+            desc = self.descriptor(target.attr)
+            if desc[2][0] != "closure":
+                raise Unsupported(f"assignment to the read-only property {target.attr} at {self.module.path}:{st.lineno}")
+            self.inline_closure(desc[2], (("self",), val), (), events, st)
+        elif isinstance(target, ast.Attribute) and self.is_self(target.value) and self.cls is not None and \
                 self.prog.find_method(self.cls, target.attr + ".setter")[1] is not None and aug is None:
             c, m = self.prog.find_method(self.cls, target.attr + ".setter")
             self.inline(c, m, (val,), {}, events, st)          # assignment to a property runs its setter
@@ -2466,6 +2473,10 @@ class Summariser:
             return ("global", "?" + e.id)
         if isinstance(e, ast.Attribute):
             if self.is_self(e.value):
+                if self.cls is not None and not self.field_prefix:
+                    desc = self.descriptor(e.attr)
+                    if desc is not None and desc[1][0] == "closure":
+                        return self.inline_closure(desc[1], (("self",),), (), events, e)
                 if self.cls is not None:
                     c, m = self.prog.find_method(self.cls, e.attr)
                     if m is not None and any(ast.unparse(d) in ("property", "functools.cached_property",
@@ -2758,6 +2769,27 @@ class Summariser:
 
     # -- calls -----------------------------------------------------------------------------------
     def call(self, e, events):
+        if isinstance(e.func, ast.Name) and e.func.id in ("getattr", "setattr") and e.func.id not in self.env and \
+                self.prog.resolve_name(self.module, e.func.id) is None and not e.keywords and \
+                len(e.args) == (2 if e.func.id == "getattr" else 3) and not any(isinstance(a, ast.Starred) for a in e.args):
+            name = self._expr(e.args[1], [])
+            if name[0] == "const" and isinstance(name[1], str) and name[1].isidentifier() and \
+                    not (isinstance(e.args[0], ast.Name) and self.is_self(e.args[0]) and e.func.id == "getattr"):
+                # getattr(obj, "name") / setattr(obj, "name", v) with a known name are obj.name / obj.name = v
+                if e.func.id == "getattr":
+                    node = ast.copy_location(ast.Attribute(value=e.args[0], attr=name[1], ctx=ast.Load()), e)
+                    node.end_lineno = getattr(e, "end_lineno", e.lineno)
+                    return self._expr(node, events)
+                val = self._expr(e.args[2], events)
+                node = ast.copy_location(ast.Attribute(value=e.args[0], attr=name[1], ctx=ast.Store()), e)
+                node.end_lineno = getattr(e, "end_lineno", e.lineno)
+                self.assign(node, val, events, e)
+                return ("const", None)
+        if isinstance(e.func, ast.Name) and e.func.id == "property" and "property" not in self.env and \
+                self.prog.resolve_name(self.module, "property") is None and 1 <= len(e.args) <= 2 and not e.keywords:
+            parts = tuple(self._expr(a, events) for a in e.args)
+            if all(p[0] in ("closure", "const") for p in parts):
+                return ("property",) + parts + (("const", None),) * (2 - len(parts))
         # a call of a package generator function used as a value
         target = self._callee_def(e) if isinstance(e.func, (ast.Attribute, ast.Name)) else None
         if target is not None and self._yields(target[2]) and \
@@ -3885,6 +3917,36 @@ class Summariser:
             else:
                 out.append(x)
         return out
+
+    def descriptor(self, attr):
+        """The property object a class-level assignment `attr = factory(...)` binds (a property built by a function of
+        the package from nested getter / setter functions): ("property", getter, setter) or None."""
+        if self.cls is None:
+            return None
+        for k in self.prog.mro(self.cls):
+            node = k.class_attrs.get(attr)
+            if node is None:
+                continue
+            if not isinstance(node, ast.Call):
+                return None
+            key = (k.qual, attr)
+            cache = self.prog.descriptors
+            if key not in cache:
+                cache[key] = None
+                holder = ast.parse("def __class_body__():\n    pass\n").body[0]
+                for n in ast.walk(holder):
+                    if hasattr(n, "lineno"):
+                        n.lineno = n.end_lineno = node.lineno
+                sub = Summariser(self.prog, k.module, None, holder, params={}, fields={}, depth=0, ids=self.ids,
+                                 stack=(f"classattr:{k.name}.{attr}",), fnstack=())
+                try:
+                    val = sub.expr(node, [])
+                except Unsupported:
+                    val = None
+                if val is not None and val[0] == "property":
+                    cache[key] = val
+            return cache[key]
+        return None
 
     def wrapper_of(self, c, m, level):
         """The callable a decorated definition is bound to after its `level` innermost user decorators have been
